@@ -23,10 +23,12 @@ CFG = {
             's,tags; 0..2 sort keys (also a key no document has, an array-valued key, descending); limits {1,3,10,75,100}; '
             'offsets {0,1,n,n+1,2n} for n shards. After EVERY write the content of every shard is read at the shard (shard manager '
             'of the node holding it, _id query over all ids ever used, select *) together with the GetShardsInfo counts; for '
-            'vector queries every shard is additionally asked directly for its full answer. Three larger deployments per run '
+            'vector queries every shard is additionally asked directly for its full answer (which of several points at the same distance a '
+            'shard returns is not determined, so rows of vector queries are tied to the shard answers by distance / score / hybrid value and '
+            'to the reference store by id and document). Six larger deployments per run '
             '(2x45, 3x25, 6x16 points, documents {i:k}) where the per-shard limit is below what a shard can answer (limits 20..100). '
             'Plus: the per-shard limit expression of SearchPoints evaluated with the Go compiler\'s float32 arithmetic for limit 1..100 x '
-            '1..6 shards and 300 wider draws (up to 64 shards, limits up to 100000), and 300 direct calls of '
+            '1..6 shards and 300 wider draws (up to 64 shards, limits up to 100000), and 400 direct calls of '
             'cluster.VerifCurateFailedPoints on ids sharing prefixes / 0x00 / 0xFF bytes with repeated requested ids and shuffled success lists. '
             'distinct = distinct histories + distinct limit triples + distinct curate calls (hash set)',
     'assumptions': ['the RPC transport (net/rpc over msgpack, internalRoute retries / timeouts) is assumed to deliver requests and answers '
@@ -66,7 +68,8 @@ LEVEL = {
             'collection is a list of C01 stores with availability flags: for ALL collections with ids unique per collection, all requests and '
             'all sets of unavailable shards an update / delete touches exactly the shards holding requested ids, every processed id is '
             'reported once (c17_found_once, c17_found_once_update), uniqueness is an invariant of insert / update / delete '
-            '(c17_unique_preserved), the shards together behave as ONE C01 store (c17_delete_reference, c17_update_reference); the sorted-slice '
+            '(c17_unique_preserved), the shards together behave as ONE C01 store for insert, update and delete (c17_insert_reference, '
+            'c17_delete_reference, c17_update_reference); the sorted-slice '
             'binary search decides membership and curateFailedPoints returns exactly requested-minus-processed in request order with "not found" '
             'iff every shard answered (c17_binary_search_sound, c17_failed_exact); for ANY per-shard answers and ANY correct sort the merge '
             'returns at most limit rows, all from shard answers, duplicate-free for disjoint shards, globally ordered, and no left-out row '
